@@ -1,1 +1,310 @@
-//! (placeholder; filled in by the check that owns it)
+//! E3 — explicit-state model of the streaming parse loop of `SymbolFile::parse` /
+//! `parse_async` (breakpad-symbols/src/sym_file/mod.rs) together with the arithmetic of
+//! `circular::Buffer` (consume / fill / shift / grow), transcribed from their sources.
+//!
+//! The line parser is abstracted to what `SymbolParser::parse_more` does with inputs made of
+//! complete lines: "consume through the last newline in the window", failing if the consumed
+//! span contains the start of a line the generator marked corrupt. Whether a line is corrupt
+//! never depends on chunking (sub-line context is carried across calls by the real parser),
+//! so the abstraction is exact for the generated inputs; this is what the conformance step
+//! (replaying model schedules on the real parser, read by read) demonstrates.
+//!
+//! A schedule is the sequence of answers of the reader: for the synchronous `Read` loop one
+//! number per read call (how many bytes it returns, 1..=min(space, remaining)); for the async
+//! loop the sizes of the body chunks.
+
+#[derive(Clone, Copy, Debug, PartialEq, Eq, Hash)]
+pub struct Consts {
+    pub init: usize,
+    pub max: usize,
+}
+pub const SMALL: Consts = Consts { init: 16, max: 256 };
+pub const REAL: Consts = Consts { init: 10 * 1024, max: 160 * 1024 };
+
+#[derive(Clone, Debug, PartialEq, Eq, Hash, PartialOrd, Ord)]
+pub enum Out {
+    /// parse succeeded; `cb` = total bytes handed to the callback, `dropped` = over-long lines discarded
+    Ok { cb: usize, dropped: usize },
+    ErrEmpty,
+    ErrEof { cb: usize },
+    ErrParse { cb: usize },
+}
+impl Out {
+    pub fn class(&self) -> &'static str {
+        match self {
+            Out::Ok { .. } => "Ok",
+            Out::ErrEmpty => "Err(empty)",
+            Out::ErrEof { .. } => "Err(unexpected EOF)",
+            Out::ErrParse { .. } => "Err(parse)",
+        }
+    }
+}
+
+/// The input as the model sees it: the bytes (only newline positions matter) and the offset
+/// of the first byte of the first corrupt line, if any.
+#[derive(Clone, Debug)]
+pub struct Input<'a> {
+    pub data: &'a [u8],
+    pub corrupt_at: Option<usize>,
+}
+
+#[derive(Clone, Hash, PartialEq, Eq, Debug)]
+pub struct St {
+    pub cap: usize,
+    pub pos: usize,
+    pub end: usize,
+    pub fully: bool,
+    pub tried: bool,
+    pub rec: bool,
+    pub justfin: bool,
+    /// total_consumed (its value matters only as zero / non-zero and as the input offset of the window)
+    pub total: usize,
+    /// input cursor: bytes already copied into the buffer
+    pub src: usize,
+    pub cb: usize,
+    pub dropped: usize,
+    // async loop only: bytes left in the current chunk (sync: unused, 0)
+    pub chunk_left: usize,
+}
+
+impl St {
+    pub fn new(c: Consts) -> St {
+        St { cap: c.init, pos: 0, end: 0, fully: false, tried: false, rec: false, justfin: false, total: 0, src: 0, cb: 0, dropped: 0, chunk_left: 0 }
+    }
+    // circular::Buffer::shift
+    fn shift(&mut self) {
+        if self.pos > 0 {
+            let l = self.end - self.pos;
+            self.pos = 0;
+            self.end = l;
+        }
+    }
+    // circular::Buffer::consume
+    fn consume(&mut self, c: usize) {
+        let c = c.min(self.end - self.pos);
+        self.pos += c;
+        if self.pos > self.cap / 2 {
+            self.shift();
+        }
+    }
+    // circular::Buffer::fill
+    fn fill(&mut self, c: usize) {
+        let c = c.min(self.cap - self.end);
+        self.end += c;
+        if self.cap - self.end < (self.end - self.pos) + c {
+            self.shift();
+        }
+    }
+    /// the bytes currently in the window are input[total .. total + (end-pos)]
+    fn window<'a>(&self, inp: &Input<'a>) -> &'a [u8] {
+        &inp.data[self.total..self.total + (self.end - self.pos)]
+    }
+    /// Phase A — top of the loop up to the read: the recovery step. Returns the space offered to the reader.
+    pub fn pre(&mut self, inp: &Input, cbl: &mut Vec<usize>) -> usize {
+        if self.rec {
+            let d = self.window(inp);
+            if let Some(i) = d.iter().position(|&b| b == b'\n') {
+                let a = i + 1;
+                self.cb += a;
+                cbl.push(a);
+                self.consume(a);
+                self.total += a;
+                self.rec = false;
+                self.fully = false;
+                self.justfin = true;
+                self.dropped += 1;
+            } else {
+                let a = d.len();
+                self.cb += a;
+                cbl.push(a);
+                self.consume(a);
+                self.total += a;
+                self.fully = true;
+            }
+        }
+        self.cap - self.end
+    }
+    /// Phase B — the reader returned `size` bytes. `Some(outcome)` when the loop returns.
+    pub fn post(&mut self, c: Consts, inp: &Input, size: usize, cbl: &mut Vec<usize>) -> Option<Out> {
+        self.src += size;
+        self.fill(size);
+        if size == 0 {
+            if self.justfin && self.end > self.pos {
+                // fall through to normal parsing
+            } else if self.fully {
+                return Some(Out::Ok { cb: self.cb, dropped: self.dropped });
+            } else if !self.tried {
+                let nc = self.cap.saturating_mul(2);
+                if nc > c.max {
+                    self.rec = true;
+                    return None;
+                }
+                self.cap = nc;
+                self.tried = true;
+                return None;
+            } else if self.total == 0 {
+                return Some(Out::ErrEmpty);
+            } else {
+                return Some(Out::ErrEof { cb: self.cb });
+            }
+        } else {
+            self.tried = false;
+        }
+        if self.rec {
+            return None;
+        }
+        self.justfin = false;
+        let d = self.window(inp);
+        let consumed = d.iter().rposition(|&b| b == b'\n').map(|i| i + 1).unwrap_or(0);
+        if let Some(bad) = inp.corrupt_at {
+            if bad >= self.total && bad < self.total + consumed {
+                return Some(Out::ErrParse { cb: self.cb });
+            }
+        }
+        self.total += consumed;
+        self.cb += consumed;
+        cbl.push(consumed);
+        self.fully = d.len() == consumed;
+        self.consume(consumed);
+        None
+    }
+}
+
+/// One read of the sync loop as the model logs it: (space offered, bytes returned).
+pub type ReadLog = Vec<(usize, usize)>;
+
+/// Run the sync model under a schedule: `plan[i]` caps the i-th read that was offered space
+/// (`usize::MAX` = as much as fits); reads beyond the plan take as much as fits.
+pub fn run_sync(c: Consts, inp: &Input, plan: &[usize]) -> (Out, ReadLog, Vec<usize>) {
+    let mut s = St::new(c);
+    let mut i = 0;
+    let mut log = vec![];
+    let mut cbl = vec![];
+    loop {
+        let space = s.pre(inp, &mut cbl);
+        let lim = if space > 0 && i < plan.len() {
+            let v = plan[i];
+            i += 1;
+            v
+        } else {
+            usize::MAX
+        };
+        let n = space.min(lim).min(inp.data.len() - s.src);
+        log.push((space, n));
+        if let Some(o) = s.post(c, inp, n, &mut cbl) {
+            return (o, log, cbl);
+        }
+        assert!(log.len() < 10_000_000, "bufmodel: run_sync does not terminate");
+    }
+}
+
+/// Run the async model: the body arrives in `chunks` (sizes; they must sum to the input length
+/// and be non-zero). Each loop iteration refills from the next chunk when the current one is
+/// exhausted (an exhausted body yields an empty chunk), then reads min(space, chunk_left).
+pub fn run_async(c: Consts, inp: &Input, chunks: &[usize]) -> (Out, ReadLog, Vec<usize>) {
+    let mut s = St::new(c);
+    let mut next = 0;
+    let mut log = vec![];
+    let mut cbl = vec![];
+    loop {
+        let space = s.pre(inp, &mut cbl);
+        if s.chunk_left == 0 && next < chunks.len() {
+            s.chunk_left = chunks[next];
+            next += 1;
+        }
+        let n = space.min(s.chunk_left);
+        s.chunk_left -= n;
+        log.push((space, n));
+        if let Some(o) = s.post(c, inp, n, &mut cbl) {
+            return (o, log, cbl);
+        }
+        assert!(log.len() < 10_000_000, "bufmodel: run_async does not terminate");
+    }
+}
+
+#[derive(Default, Debug, Clone)]
+pub struct SearchStats {
+    pub states: u64,
+    pub transitions: u64,
+}
+
+/// Memoised search over ALL schedules of the sync loop for one input. Returns, per distinct
+/// terminal outcome, one witness schedule (sequence of read sizes) reaching it.
+pub fn all_outcomes_sync(c: Consts, inp: &Input, stats: &mut SearchStats) -> Vec<(Out, Vec<usize>)> {
+    use std::collections::{HashMap, HashSet};
+    let mut seen: HashSet<St> = HashSet::new();
+    let mut outs: HashMap<Out, Vec<usize>> = HashMap::new();
+    // DFS with the path of read sizes leading to each state
+    let mut stack: Vec<(St, Vec<usize>)> = vec![(St::new(c), vec![])];
+    let mut cbl = vec![];
+    while let Some((s0, path)) = stack.pop() {
+        let mut s = s0;
+        cbl.clear();
+        let space = s.pre(inp, &mut cbl);
+        if !seen.insert(s.clone()) {
+            continue;
+        }
+        stats.states += 1;
+        let maxn = space.min(inp.data.len() - s.src);
+        let lo = if maxn == 0 { 0 } else { 1 };
+        for n in lo..=maxn {
+            let mut t = s.clone();
+            stats.transitions += 1;
+            let mut p = path.clone();
+            if space > 0 {
+                p.push(n);
+            }
+            match t.post(c, inp, n, &mut cbl) {
+                Some(o) => {
+                    outs.entry(o).or_insert(p);
+                }
+                None => stack.push((t, p)),
+            }
+        }
+    }
+    let mut v: Vec<(Out, Vec<usize>)> = outs.into_iter().collect();
+    v.sort();
+    v
+}
+
+/// Memoised search over ALL chunkings of the async loop (every composition of the input length).
+pub fn all_outcomes_async(c: Consts, inp: &Input, stats: &mut SearchStats) -> Vec<(Out, Vec<usize>)> {
+    use std::collections::{HashMap, HashSet};
+    let mut seen: HashSet<St> = HashSet::new();
+    let mut outs: HashMap<Out, Vec<usize>> = HashMap::new();
+    let mut stack: Vec<(St, Vec<usize>)> = vec![(St::new(c), vec![])];
+    let total_len = inp.data.len();
+    let mut cbl = vec![];
+    while let Some((s0, path)) = stack.pop() {
+        let mut s = s0;
+        cbl.clear();
+        let space = s.pre(inp, &mut cbl);
+        if !seen.insert(s.clone()) {
+            continue;
+        }
+        stats.states += 1;
+        // bytes of the input not yet assigned to a chunk
+        let assigned: usize = path.iter().sum();
+        let choices: Vec<usize> = if s.chunk_left == 0 && assigned < total_len { (1..=total_len - assigned).collect() } else { vec![0] };
+        for ch in choices {
+            let mut t = s.clone();
+            let mut p = path.clone();
+            if ch > 0 {
+                t.chunk_left = ch;
+                p.push(ch);
+            }
+            let n = space.min(t.chunk_left);
+            t.chunk_left -= n;
+            stats.transitions += 1;
+            match t.post(c, inp, n, &mut cbl) {
+                Some(o) => {
+                    outs.entry(o).or_insert(p);
+                }
+                None => stack.push((t, p)),
+            }
+        }
+    }
+    let mut v: Vec<(Out, Vec<usize>)> = outs.into_iter().collect();
+    v.sort();
+    v
+}
